@@ -221,6 +221,34 @@ def main():
             violations.append({"job": "regression:" + e["id"], "replay": path, "args": rec.get("args"),
                                "cls": res.get("cls"), "exc": res.get("exc")})
 
+    # regression corpus (regress.json): inputs on which some seeded change once made this property fail (found by the
+    # solver in a seed trial, see DESIGN 8.11).  Replayed concretely on every run: on the tree as it is they hold;
+    # a change of the same kind makes them fail again whatever the search order of the symbolic runs.
+    reg_path = os.path.join(HERE, "regress.json")
+    regress_n = 0
+    if os.path.exists(reg_path) and not a.only:
+        regs = [r for r in json.load(open(reg_path)) if r["property"] == prop and r.get("tier", "quick") in ("quick", tier)]
+        hnames = {h.name for h in harnesses}
+        regs = [r for r in regs if r["harness"] in hnames]
+        if regs:
+            recs = [{"prop": prop, "harness": r["harness"], "part": r.get("part"), "tier": tier, "args": r.get("args"),
+                     "kf_active": sorted(kf_ids)} for r in regs]
+            path = os.path.join(OUT, "replays", f"{prop}-regress.json")
+            json.dump(recs, open(path, "w"))
+            res, err = run_replay(path)
+            if res is None:
+                errors.append({"job": "regress", "error": "replay broke: " + (err or "")[-400:]})
+            else:
+                for r, x in zip(regs, res):
+                    regress_n += 1
+                    if x.get("ok") is False and x.get("real_ok", False) is not True:
+                        one = os.path.join(OUT, "replays", f"{prop}-regress-{regress_n}.json")
+                        json.dump(dict(recs[regress_n - 1]), open(one, "w"), indent=1)
+                        violations.append({"job": "regress:" + r.get("found_with", "?") + ":" + r["harness"], "replay": one,
+                                           "args": r.get("args"), "cls": x.get("cls"), "exc": x.get("exc")})
+                    elif x.get("ok") is None:
+                        errors.append({"job": "regress:" + r["harness"], "error": "replay broke: " + (x.get("exc") or "")[-300:]})
+
     # functions actually entered: concrete replays of the witnesses under a profile hook
     funcs = set()
     if samples:
@@ -248,7 +276,12 @@ def main():
                 "executed by CrossHair 0.0.110 with symbolic inputs; for every path z3 decides whether the "
                 "postcondition (property vs. reference oracle) can be violated. CONFIRMED = every path inside the "
                 "stated bounds discharged; NO_CEX = budget exhausted without counterexample (not exhaustive). "
-                "Counterexamples are replayed concretely before being reported. " + getattr(mod, "EXPLANATION", "")),
+                "Counterexamples are replayed concretely before being reported. Harnesses whose describe text says "
+                "'menu', 'corpus' or 'REAL' run the code untraced on concrete values after the solver has branched on "
+                "the menu indices (exhaustive over the menu; DESIGN 8.9 - 8.10). "
+                + ("%d recorded inputs of the regression corpus (regress.json, DESIGN 8.11) were replayed concretely. " % regress_n
+                   if regress_n else "")
+                + getattr(mod, "EXPLANATION", "")),
             "evaluations": sum(r.get("paths", 0) for r in results),
             "distinct_nontrivial": len(witnessed),
             "rule": ("evaluations = harness-body executions (= symbolic paths explored) over all analyses; "
